@@ -103,7 +103,27 @@ Qed.
 Theorem undecodable_dropped W full est s d : undecodable d -> recv_dgram W full est s d = (s, []).
 Proof.
   intros Hu. unfold recv_dgram. destruct (r_closed s); [reflexivity|].
-  destruct d as [ | | | rs]; try reflexivity. now apply recv_recs_bad.
+  destruct d as [ | | | | rs]; try reflexivity. now apply recv_recs_bad.
+Qed.
+
+(* whatever undecodable datagrams (oversized ones included) are queued in front of, between and behind the genuine
+   ones: the connection outputs exactly what it outputs without them - the genuine datagram behind an oversized one
+   is read and processed *)
+Theorem pump_skips_undecodable W full est : forall q s,
+  pump W full est s q =
+  pump W full est s (filter (fun d => match d with DRecs _ => true | _ => false end) q).
+Proof.
+  induction q as [|d q IH]; intro s; [reflexivity|].
+  destruct d as [ | | | | rs]; cbn [filter];
+    try (cbn [pump]; unfold recv_dgram at 1; destruct (r_closed s); cbn [app]; rewrite IH;
+         destruct (pump W full est s (filter _ q)); reflexivity).
+  cbn [pump]. destruct (recv_dgram W full est s (DRecs rs)) as [s1 o1]. now rewrite IH.
+Qed.
+
+Corollary oversized_consumed W full est s q :
+  pump W full est s (DOversized :: q) = pump W full est s q.
+Proof.
+  cbn [pump]. unfold recv_dgram at 1. destruct (r_closed s); cbn [app]; destruct (pump W full est s q); reflexivity.
 Qed.
 
 (* an UNPROTECTED record whose content does not decode (unknown content type, malformed alert /
